@@ -1,6 +1,6 @@
 (* Case runners (model side of the correspondence check) for the domains of
    multiboot2-common and the conversions: c14, align, conv, conveq, elfty, fb, magic. *)
-Require Import Bytes Outcome Render Common TagType.
+Require Import Bytes Outcome Render Layout Common TagType UserTypes.
 From Coq Require Import String.
 Open Scope string_scope.
 
@@ -75,3 +75,8 @@ Definition run_conveq (x y : N) : list string :=
 Definition run_elfty (raw : N) : list string := [ line "section_type" (sElfType (elf_section_type raw)) ].
 Definition run_fb (b : N) : list string := [ line "fb_type" (sRes sFbId (fb_try_from b)) ].
 Definition run_magic : list string := [ line "magic" ("mbi=" ++ sN MBI_MAGIC ++ " hdr=" ++ sN HDR_MAGIC) ].
+
+(* cast 0 <k> <bytes> | cast 1 <F> <es> <ea> <bytes> *)
+Definition run_cast (p : profile) (d : sdesc) (bs : list byte) : list string :=
+  [ line "cast" (sRes (fun t => sView (t_off t) (sd_size_of_val d (t_meta t)) ++ " meta=" ++ sOpt sN (t_meta t))
+                      (run_cast_user p d bs)) ].
